@@ -44,7 +44,9 @@ reg("C04", "exploration",
     "Generated histories over every list/dict/set mutator and whole-value assignment on 11 container traits (bounded, "
     "nested, Union items) with valid/convertible/invalid items; after every step an independent recursive predicate "
     "checks every element and length, and a model on documented conversions decides whether the op had to succeed "
-    "(same contents) or be rejected with TraitError leaving everything unchanged and nobody notified. Sampling.",
+    "(same contents) or be rejected with TraitError leaving everything unchanged and nobody notified. Items include values "
+    "EQUAL to members but of another type; operands include frozensets, detached unvalidated copies and the container "
+    "object of a dropped twin instance; a bounded list without a default must never read below its minimum. Sampling.",
     BASE_NOTE + "Inner-trait conversions modelled from the documentation (Int via __index__, Float via __float__/__index__).",
     "DESIGN.md 3/C04")
 
@@ -61,8 +63,11 @@ reg("C01", "exploration",
     "Each of ~190 configurations (all fast scalar types and Base twins, casts, int/float Range with every bound/exclusivity "
     "combination, Enum, Map, PrefixList/Map, Tuple, Instance/Type/This/Callable with allow_none and adapt modes, String, "
     "List/Dict/Set, Either/Union/Trait compounds) is driven through the whole ~150-value lattice by setattr, trait_set, "
-    "trait_setq and constructor keyword on one object (exhaustive inside grid x lattice), plus generated nestings. "
-    "Absence outside the grid/lattice is not shown; Array/Date/File traits are not covered.",
+    "trait_setq, constructor keyword and through a PrototypedFrom attribute on one object (exhaustive inside grid x "
+    "lattice), plus generated nestings. A second pair of stages (DESIGN.md 14) does the same for the types outside the "
+    "lattice: Array/CArray/ArrayOrNone (9 dtypes x 9 shapes x 5 casting rules), Date/Time/Datetime, UUID, File/Directory, "
+    "Expression, WeakRef, CList/CSet, ValidatedTuple, Constant, dynamic Range/Enum (incl. a shrinking collection), Properties "
+    "with a validating trait, and 27 Base*/alias classes. Absence outside the grids/lattice is not shown.",
     BASE_NOTE + "References are my reading of the documentation; where it is silent only the domain predicate is applied.",
     "DESIGN.md 3/C01")
 
@@ -70,7 +75,9 @@ reg("C02", "exploration",
     "Hypothesis assignment histories vs a per-step model of expected handler calls (comparison mode x readable before/after), identity of reported old/new, agreement of the three mechanisms",
     "Generated histories of normal, quiet and rejected assignments and default reads over 19 attributes (6 trait kinds x 3 "
     "comparison modes + Event), each watched by a static handler, _anytrait_changed, on_trait_change and observe, any two "
-    "of which raise; expected call counts are computed from the values readable before/after. Sampling, not exhaustive.",
+    "of which raise; variants: object-level one-shot handlers, a class without any trait-level handler on six attributes, "
+    "a subclass overriding only defaults, observe-decorated magic-named handlers inherited from a base class, a typed "
+    "Event. Expected call counts are computed from the values readable before/after. Sampling, not exhaustive.",
     BASE_NOTE + "Handler exceptions are swallowed by recording exception handlers (the default configuration logs them).",
     "DESIGN.md 3/C02")
 
@@ -78,8 +85,10 @@ reg("C08", "exploration",
     "Hypothesis model-based histories: from-scratch reachability model over a pool of interlinked objects decides, after every mutation, the step's own event and a probe of every pool object",
     "Generated expressions (series/parallel/items/metadata links/anytrait, '.' and ':', DSL text or expression API) on pools "
     "with sharing, duplicates and cycles; after each of <=25 mutations every pool object (reachable or detached) is probed "
-    "and must call the handler exactly once iff the model reaches it with notify. Sampling; histories are cut at "
-    "self-referential steps while known finding F16 is active.",
+    "and must call the handler exactly once iff the model reaches it with notify. Mutations include multi-argument set "
+    "operations, metadata-selected link traits (also with falsy metadata values) added to instances before or after "
+    "registration, and deletion of a default-object link. Sampling; histories are cut at self-referential steps while "
+    "known finding F16 is active and after the deletion step of F48.",
     BASE_NOTE + "The reachability model is my reading of the user manual's semantics of observe expressions.",
     "DESIGN.md 3/C08")
 
@@ -89,16 +98,21 @@ reg("C09", "fault_enumeration",
     "expressions (text and API form) with graph mutations, owner collection and gc; every pool object is probed after every "
     "step, notifier populations are compared after balanced histories, the root is finally dropped while downstream objects "
     "live. fail: for each generated (graph, expression) a bad object is placed at EVERY position of the walk and the failing "
-    "observe() must leave populations and probe results unchanged. dispatch='same' only.",
+    "observe() must leave populations and probe results unchanged. failrem: the same for a REMOVAL that raises part-way "
+    "(bad object inserted after registration). optional: histories concentrated on traits observed (optional or required) "
+    "before/after add_trait, re-added, added twice, container traits added under anytrait observers. Expressions are "
+    "handed over as DSL text, expression objects or lists. dispatch='same' only.",
     BASE_NOTE + "CPython reference counting is deterministic, so explicit del/gc.collect() steps own the collection schedule.",
     "DESIGN.md 3/C09")
 
 reg("C10", "exploration",
     "Hypothesis class specifications x multi-instance histories vs a per-instance model with private deep copies of the declared defaults; isolation invariant over all other instances, the class and a new instance after every step",
-    "Generated classes (14 default kinds incl. container copies, factories, _name_default, Tuple/Union/Dict with container "
-    "members, subclass overrides) and histories over 2-5 instances (read, mutate default containers, assign, handlers, "
+    "Generated classes (18 default kinds incl. container copies, list/dict subclasses, factories, _name_default, a "
+    "property-style dynamic Enum with a default method, Tuple/Union/Dict with container members, the Union's own list "
+    "default, subclass overrides, a wildcard trait) and histories over 2-5 instances (read, mutate default containers, assign, handlers, "
     "add/remove_trait, trait queries); after every step every other instance, class-level definitions and a brand-new "
-    "instance are compared with their model and no container may be shared. Sampling.",
+    "instance are compared with their model and no container may be shared; handlers are identified by the instance they "
+    "were registered on; definitions are compared on the raw class and instance tables. Sampling.",
     BASE_NOTE, "DESIGN.md 3/C10")
 
 reg("C11", "exploration",
@@ -106,7 +120,8 @@ reg("C11", "exploration",
     "Generated deferring classes (DelegatesTo / PrototypedFrom x same-name / explicit / 'pre_*' / '*' styles, optional second "
     "hop of the same kind, 3 candidate delegates per hop) and histories of valid/invalid assignments through the deferring "
     "attribute, assignments on any candidate delegate and on unrelated attributes, delegate swaps and deletion of the local "
-    "value. Sampling; mixed-kind chains and modify/listenable options are not covered.",
+    "value; variants: a second deferring attribute for the same target, a delegate that is the trait's constant default "
+    "object, listenable=False. Sampling; mixed-kind chains and the modify option are not covered.",
     BASE_NOTE, "DESIGN.md 3/C11")
 
 reg("C12", "exploration",
@@ -114,14 +129,16 @@ reg("C12", "exploration",
     "An object with 9 observed properties (cached/uncached; scalar, Instance, list/dict/set items with duplicates, nested and "
     "multi-dependency) is driven through generated mutations, reads and copy operations; after every step every property "
     "is compared with a recomputation, cached getters may run at most once between changes, and value-altering changes must "
-    "be announced to observe, on_trait_change and static handlers with the right final value. Sampling.",
+    "be announced to observe, on_trait_change and static handlers - or to an object-level handler when nothing listens by "
+    "name - with the right final value; variant: a subclass overriding only getters. Sampling.",
     BASE_NOTE, "DESIGN.md 3/C12")
 
 reg("C13", "exploration",
     "Hypothesis class hierarchies x access histories vs an independent name resolver and per-kind policy automaton",
     "Generated hierarchies over HasTraits/HasStrictTraits/HasPrivateTraits (1-3 levels, optional mixin base) with explicit and "
-    "wildcard traits of 8 kinds; histories of get/set/del on 40 names (matching 0, 1 or several prefixes), add_trait / "
-    "remove_trait and shadow/unshadow cycles; outcome class and value are compared with the model after every op. Sampling.",
+    "wildcard traits of 9 kinds; histories of get/set/del on ~50 names (matching 0, 1 or several prefixes, incl. names with "
+    "two leading underscores), add_trait / remove_trait (also of container traits with their items companion) and "
+    "shadow/unshadow cycles; outcome class and value are compared with the model after every op. Sampling.",
     BASE_NOTE + "Policy automaton calibrated against the documentation (Event: write-only, Constant: immutable, ReadOnly: one defining assignment ...).",
     "DESIGN.md 3/C13")
 
@@ -131,7 +148,9 @@ reg("C14", "exploration",
     "copy-metadata traits, observed Property, @observe method, prototyped local value) copied by pickle protocols 0-5, deepcopy, "
     "clone_traits(None/shallow/deep) and copy_traits; values, transients, non-sharing and liveness (validation at every depth, "
     "items handlers, observers, property dependencies, write-once) are probed on the copy. defs: all 46 definition kinds x "
-    "pickle/copy/deepcopy, the round-tripped CTrait must validate/default/get/set like the original. Sampling for objects.",
+    "pickle/copy/deepcopy, the round-tripped CTrait must validate/default/get/set like the original. defgrid: every "
+    "configuration of the C01/C03 lattice as a definition x 3 routes, compared on every lattice value (exhaustive). objkinds: "
+    "every definition kind as the attribute of an object x 3 states x 6 copy routes (exhaustive). Sampling for objects.",
     BASE_NOTE, "DESIGN.md 3/C14")
 
 reg("C15", "exploration",
@@ -148,13 +167,15 @@ reg("C16", "exploration",
     "Generated extended names (1-3 links through Instance/List/Dict/Set traits, '.'/':' mixes) with the corresponding observe "
     "expression on tree-shaped graphs; after each of <=15 mutations the final attribute of every object ever created is probed: "
     "legacy called iff observe called iff reachable; link assignments are reported by both for '.' and by neither for ':'; after "
-    "remove=True nothing is called. Sampling.",
+    "remove=True nothing is called. Variants: deferred registration, 1- and 2-argument handler signatures, nodes with "
+    "value-based equality. Sampling.",
     BASE_NOTE + "Unshared graphs and explicit values only, as the statement requires.", "DESIGN.md 3/C16")
 
 reg("C17", "exploration",
     "Hypothesis-generated type hierarchies x offer multisets decided against an unpruned brute-force enumeration of all chains of distinct applicable offers",
     "Generated hierarchies (multiple inheritance, ABC registration), offers constructed along drawn paths plus distractors, "
-    "duplicates, cycles, conditional factories (6 kinds) and specificity twins; adapt() / adapt(default) / Supports / AdaptsTo / "
+    "duplicates, cycles, conditional factories (7 kinds, incl. factories that raise during a first attempt), specificity "
+    "twins, a short chain entering through a far base class, late ABC registrations, re-assignment after a new offer; adapt() / adapt(default) / Supports / AdaptsTo / "
     "Instance(adapt='yes') results are compared with the brute force for existence, validity, minimal length and single-step "
     "specificity; every case runs under a watchdog. Sampling.",
     BASE_NOTE + "Brute force enumerates <= 7! sequences; factories are deterministic.", "DESIGN.md 3/C17")
@@ -164,7 +185,9 @@ reg("C20", "exploration",
     "Generated histories over three objects with scalar, bounded and list traits: sync_trait mutual/one-way with aliases and "
     "several partners, remove=True, scalar and list assignments, 16 list mutators incl. extended slices, partner collection; "
     "after every step every attribute is compared with the model (convergence of linked attributes, no change of unlinked "
-    "ones), no exception may be raised or reach the notification exception handler, handlers fire at most once per step. Sampling.",
+    "ones), no exception may be raised or reach the notification exception handler, handlers fire at most once per step; "
+    "links are re-issued with other flags/directions, single directions removed, and a sync_trait call whose initial copy "
+    "is rejected must raise and leave nothing behind. Sampling.",
     BASE_NOTE, "DESIGN.md 3/C20")
 
 reg("C19", "fault_enumeration",
@@ -172,7 +195,8 @@ reg("C19", "fault_enumeration",
     "For each generated (prefix, operation, follow-up) the fault-free run counts the invocations of harness-owned user "
     "callbacks (custom validators inside List/Dict/Set/Union/Either, default methods and factories, property getter/setter, "
     "adapter factories, static/on_trait_change/observe/items handlers, validators of synchronised partners); every ordinal k "
-    "x {TraitError, ValueError, AttributeError, RuntimeError} is then injected on a fresh twin and judged. 27 operations; the "
+    "x {TraitError, ValueError, AttributeError, RuntimeError, a RuntimeError with a non-string first argument} is then "
+    "injected on a fresh twin and judged, under a quiet handler of the harness or the library's default handler. 34 operations; the "
     "enumeration over k and exception types is complete for each generated operation, the operations themselves are sampled.",
     BASE_NOTE + "User callbacks are harness-owned wrappers; Union alternatives that raise count as rejecting.", "DESIGN.md 3/C19")
 
@@ -182,8 +206,12 @@ reg("C18", "exploration",
     "PyErr_Occurred after every operation); half of the shards run with gc.set_threshold(1,1,1). refcount stage: for 37 "
     "operations (succeeding and raising, through every validator family, compounds, delegation, properties, handlers, "
     "add/remove_trait, CTrait pickling) sys.getrefcount of fresh tracked objects must be unchanged after 10 and 30 repetitions. "
-    "Thorough adds a native libFuzzer (atheris) campaign on the validators. Sanitizers see only the paths reached; MSan is "
-    "not available.",
+    "refgrid: every lattice configuration x (lattice values + 28 containers with mortal convertible items): reference counts of "
+    "the value and everything nested in it after 1/11/41 assignments to fresh objects. ctrait-api (sanitised, exhaustive): every "
+    "getset attribute of cTrait x {delete, assign 15 values} on 5 kinds of definitions, raw CTrait(kind), base_trait() along "
+    "broken delegation chains. deffault(-asan): default callback kind x exception class (or a returned watched object) x "
+    "warnings filter x access route. Thorough adds a native libFuzzer (atheris) campaign on the validators. Sanitizers see "
+    "only the paths reached; MSan is not available.",
     BASE_NOTE + "gcc 12 ASan/UBSan runtime; PYTHONMALLOC=malloc so that CPython's allocator does not hide frees.", "DESIGN.md 3/C18")
 
 
